@@ -550,3 +550,51 @@ write_run_metadata = REG.add(Contract(
     store_hooks={"metadata": lambda eng, st, key, value, node: st},
     with_handler=plain_with,
 ))
+
+
+# --------------------------------------------------------------------------------------
+# StorageBackend._read_and_format_chunk: what a loaded chunk is made of (C16 / C03)
+# --------------------------------------------------------------------------------------
+from pyvc.engine import RowsT, strv  # noqa: E402
+from pyvc.contract import make_symbolic  # noqa: E402
+
+
+def _read_chunk_hook(eng, args, kw, st, fr, k, node):
+    """self._read_chunk(...): the backend's raw rows (any number of them; may fail)"""
+    fr.on_raise(Exc("Any", Opq(eng.fresh("read_exc", "V"))), st)
+    arr, st = make_symbolic(eng, eng.new_base("read_rows"), RowsT(time="int", endtime="int"), st, set())
+    g = dict(st.ghost)
+    g["py:read"] = arr
+    g["read_with_info"] = eng.to_v(kw.get("chunk_info", PNONE))
+    return k(arr, St(st.env, st.heap, st.pc, g))
+
+
+def _chunk_ctor_hook(eng, args, kw, st, fr, k, node):
+    info = st.env["chunk_info"].t
+    gi = z3.Function("getitem", V, V, V)
+    data = kw.get("data")
+    n_info = z3.Function("v2int", V, z3.IntSort())(gi(info, strv("n")))
+    eng.oblige("loaded-chunk", "a chunk is built only from data whose row count equals the count recorded in the metadata", st,
+               (data.n == n_info) if hasattr(data, "n") else z3.BoolVal(False), node)
+    for field in ("start", "end", "run_id"):
+        eng.oblige("loaded-chunk", f"the chunk's {field} is the one recorded in the chunk metadata", st,
+                   eng.to_v(kw.get(field, PNONE)) == gi(info, strv(field)), node)
+    eng.oblige("loaded-chunk", "the chunk's subruns are the recorded ones (None if absent)", st,
+               eng.to_v(kw.get("subruns", PNONE)) == z3.Function("method:get", V, V, V, V)(info, strv("subruns"), NONE), node)
+    read = st.ghost.get("py:read")
+    eng.oblige("loaded-chunk", "the chunk carries the rows the backend returned (or no rows for a chunk recorded as empty)", st,
+               z3.BoolVal(read is not None and data is read) if read is not None else (data.n == 0 if hasattr(data, "n") else z3.BoolVal(False)), node)
+    fr.on_raise(Exc("ValueError"), st)
+    g = dict(st.ghost)
+    g["built"] = z3.BoolVal(True)
+    return k(Opq(eng.fresh("loaded_chunk", "V")), St(st.env, st.heap, st.pc, g))
+
+
+read_and_format = REG.add(Contract(
+    FC, "StorageBackend._read_and_format_chunk",
+    params=dict(self="V", backend_key="V", dtype="V", metadata="V", chunk_info="V", time_range="V", chunk_construction_kwargs="V"),
+    ensures=lambda S, a, r: [("a chunk was built", a.ghost.built)],
+    raises={"DataCorrupted": lambda S, a: S.true, "ValueError": lambda S, a: S.true, "Any": lambda S, a: S.true},
+    ghost={"built": z3.BoolVal(False), "read_with_info": z3.Const("nothing_read", V)},
+    calls={"self._read_chunk": _read_chunk_hook, "strax.Chunk": _chunk_ctor_hook, "self.apply_time_range": Abstract(pure=True)},
+))
